@@ -229,6 +229,8 @@ def make_image(rng, U, Gimg, key, keys, safe_only, cplx):
             kinds += ["grad"]
         if rng.random() < 0.15:
             kinds += ["zero"]
+        if len(sh) == 1:
+            kinds += ["indexsum", "indexsum"]
     kind = rng.choice(kinds)
     k = rng.choice([2, 3])
     if kind == "coef-same":
@@ -250,6 +252,12 @@ def make_image(rng, U, Gimg, key, keys, safe_only, cplx):
         return ufl.as_tensor(literal_tensor(rng, sh, cplx)), kind
     if kind == "zero":
         return (0 if rng.random() < 0.5 else 0.0, "pyzero") if sh == () else (ufl.zero(*sh), kind)
+    if kind == "indexsum":
+        # a vector valued sum that binds one of the index objects the surrounding expression uses as well: when the
+        # replaced coefficient is indexed with that very index, the image's own sum must not capture it
+        m_ = rng.choice([2, 3])
+        kk = rng.choice(U.idx)
+        return U.const((sh[0], m_), k)[:, kk] * U.const((m_,), k)[kk], kind
     if kind == "grad":
         if sh == (g,):
             return ufl.grad(U.coef(rng.choice(["P2", "P3", "P1"]), k)), kind
